@@ -453,11 +453,13 @@ def run_shard(ctx, args):
         return threads_shard(ctx, args)
     from moptipyapps.qap.instance import Instance
     rng = ctx.rng
-    shipped(ctx, ctx.shard_idx % 4, 4)
+    if ctx.engine != "py":
+        shipped(ctx, ctx.shard_idx % 4, 4)
     if ctx.shard_idx % 4 == 0 and ctx.engine == "jit":
         long_life(ctx, rng)
     # EVERY facility count up to 132 (this shard's share), not only windows
-    for n in range(13 + ctx.shard_idx % 4, 133, 4):
+    for n in range(13 + ctx.shard_idx % 4, 133 if ctx.engine != "py" else 40,
+                   4):
         F, D, tag = gen(rng, n)
         if trivial(F, D)[1] >= 10 ** 15:
             continue
